@@ -2,7 +2,7 @@
 from .. import AnalysisBroken
 from ..nnabs import MOD
 from ..terms import show, strip_all
-from ._nn import check_bfs, check_readonly_method, check_role_forwarding, get_nn, resolve_callee, run_fga, wh
+from ._nn import check_candidates, check_engines_stateless, check_bfs, check_readonly_method, check_role_forwarding, get_nn, resolve_callee, run_fga, wh
 
 CLAIMED = True
 LEVEL = "other"
@@ -19,11 +19,14 @@ def run(r):
     rep = r.rep
     rep.explanation = "Every triplet insertion site of the two lookup methods was typed and its acceptance condition compared with the specification for default mode."
     rep.trust("rapidfuzz.distance.Levenshtein.distance is the exact Levenshtein distance", "DESIGN Appendix A.1 / A.3 / A.4 / A.5 (lemma table)")
-    run_fga(r, "C03", {"none"}, labels={"SymdelDB.lookup", "LookupDB.lookup"}, floor=4)
     # a database object answers every query as a fresh one would: lookup never writes to it
     check_readonly_method(r, "C03-RO", MOD + "SymdelDB.lookup")
     check_readonly_method(r, "C03-RO", MOD + "LookupDB.lookup")
     rep.floor("C03-RO", 2)
+    # hypotheses of the candidate lemmas first: a lost candidate is a lost pair whatever the filter does
+    check_candidates(r, "C03", engines=("symdel", "hash"), cds=("none",))
+    check_engines_stateless(r, "C03-STATE", entries=("symdel", "SymdelDB.lookup", "LookupDB.lookup", "SymdelDB.__init__", "LookupDB.__init__"))
+    run_fga(r, "C03", {"none"}, labels={"SymdelDB.lookup", "LookupDB.lookup"}, floor=4)
     check_bfs(r, "C03-BFS")
     rep.floor("C03-BFS", 6)
     # symdel's two-collection branch delegates to SymdelDB(seqs, max_edits).lookup(seqs2, ...)
